@@ -1,328 +1,231 @@
 #!/usr/bin/env python3
 """C02 - every endpoint serves the heaviest chain and agrees on its tip.
 
-Kernels (all executed from the MIR regenerated from /repo):
+Kernels (all executed from the MIR regenerated from /repo), every arrival-ordered tree up to N blocks:
   a  BlockTree::main_chain_by_difficulty / main_chain_length_by_difficulty  vs. the oracle "greatest accumulated
-     difficulty, ties: more blocks, then received first", every arrival-ordered tree up to N blocks, difficulties symbolic
+     difficulty, ties: more blocks, then received first", difficulties symbolic
   b  state::blockchain_info, main_chain_height, get_utxos_from_chain (unfiltered), get_balance_private (unfiltered),
-     GenericUnstableBlocks::get_block_headers_in_range, fee percentiles' block selection: the tip / blocks they use
-     are the oracle's best chain
+     unstable_blocks::get_main_chain_length: the tip / blocks they use are the oracle's best chain
 """
 import os, sys, time, json
 import z3
 sys.path.insert(0, os.path.dirname(os.path.dirname(os.path.abspath(__file__))))
 from checks import common as C
-from mirsym import harness as H, btc
-from mirsym.interp import (Interp, explore, Stats, Agg, Cell, SInt, Ref, VecV, Opaque, UNIT, Panic, Unsupported, some,
-                           none, ok, err, tup)
-from mirsym.models_std import deref, ListIter
+from checks.treelib import *   # noqa: F401,F403
 
 PROP = 'C02'
-STUBS_A = []
 STUBS_B = ['print', 'perf_counter', 'blockhash_to_vec', 'blockhash_from']
-
-
-def check_unsat(it, rep, cond):
-    """is `cond` impossible on the current path?  returns None if unsat, else a model"""
-    it.solver.push()
-    it.solver.add(cond)
-    t = time.time()
-    r = it.solver.check()
-    it.nq += 1
-    it.solver_s += time.time() - t
-    m = it.solver.model() if r == z3.sat else None
-    it.solver.pop()
-    if r == z3.unknown:
-        raise Unsupported('solver unknown in property query')
-    if r == z3.unsat:
-        rep.cov['unsat'] += 1
-        return None
-    rep.cov['sat'] += 1
-    return m
+PROG = None
 
 
 # ------------------------------------------------------------------------------------------- kernel a
-def kernel_a(prog, rep, N, cands):
+def kernel_a_shape(prog, rep, cands, parents):
     st = Stats()
-    nshapes = 0
-    for n in range(1, N + 1):
-        for parents in H.all_shapes(n):
-            nshapes += 1
-            ts = btc.TreeScenario(parents)
-            tips_seen = set()
+    ts = btc.TreeScenario(parents)
+    tips_seen = set()
 
-            def scenario(it):
-                ts.assume_ranges(it)
-                root = ts.build_tree(it, prog)
-                chain = it.call('BlockTree::<Block>::main_chain_by_difficulty', [Ref(Cell(root))])
-                ids = btc.chain_ids(chain)
-                ln = it.call('BlockTree::<Block>::main_chain_length_by_difficulty', [Ref(Cell(root))])
-                tip = ids[-1]
-                tips_seen.add(tip)
-                # structural facts are concrete on every path
-                if ids != ts.path(tip) or tip not in ts.leaves:
-                    cands.append(dict(kernel='a', role='not-a-root-to-leaf-path', parents=parents, got=ids,
-                                      model=it.solver.model() if it.feasible() else None, ts=ts))
-                    return
-                if not isinstance(ln.t, int) or ln.t != len(ids):
-                    cands.append(dict(kernel='a', role='length-fn-disagrees', parents=parents, got=ids, length=str(ln.t),
-                                      model=it.model_ if it.feasible() else None, ts=ts))
-                    return
-                m = check_unsat(it, rep, z3.Not(ts.is_best(tip)))
-                if m is not None:
-                    cands.append(dict(kernel='a', role='not-the-best-branch', parents=parents, got=ids, model=m, ts=ts))
+    def scenario(it):
+        ts.assume_ranges(it)
+        root = ts.build_tree(it, prog)
+        chain = it.call('BlockTree::<Block>::main_chain_by_difficulty', [Ref(Cell(root))])
+        ids = btc.chain_ids(chain)
+        ln = it.call('BlockTree::<Block>::main_chain_length_by_difficulty', [Ref(Cell(root))])
+        tip = ids[-1]
+        tips_seen.add(tip)
+        mdl = lambda: it.model_ if it.feasible() else None
+        # structural facts are concrete on every path
+        if ids != ts.path(tip) or tip not in ts.leaves:
+            cands.add(kernel='a', role='not-a-root-to-leaf-path', got=ids, model=mdl(), ts=ts)
+            return
+        if not isinstance(ln.t, int) or ln.t != len(ids):
+            cands.add(kernel='a', role='length-fn-disagrees', got=ids, length=str(ln.t), model=mdl(), ts=ts)
+            return
+        m = check_unsat(it, rep, z3.Not(ts.is_best(tip)))
+        if m is not None:
+            cands.add(kernel='a', role='not-the-best-branch', got=ids, model=m, ts=ts)
 
-            explore(prog, scenario, stats=st, on_panic=lambda it, e: cands.append(
-                dict(kernel='a', role='trap', parents=parents, msg=str(e), ts=ts, model=it.model_ if it.feasible() else None)))
-            # reachability witness: every leaf is the answer for some difficulty assignment
-            if tips_seen == set(ts.leaves):
-                rep.cov['witnesses'] += 1
-            else:
-                cands.append(dict(kernel='a', role='leaf-never-selected', parents=parents,
-                                  got=sorted(tips_seen), ts=ts, model=None, vacuity=True))
-            if n == N and nshapes % 7 == 0:
-                rep.sample(dict(kernel='a', parents=parents, leaves=ts.leaves, paths_tips=sorted(tips_seen)))
+    explore(prog, scenario, stats=st, on_panic=lambda it, e: cands.add(
+        kernel='a', role='trap', msg=str(e), ts=ts, model=it.model_ if it.feasible() else None))
+    # reachability witness: every leaf is the answer for some difficulty assignment
+    if tips_seen == set(ts.leaves):
+        rep.cov['witnesses'] += 1
+    else:
+        cands.add(kernel='a', role='leaf-never-selected', got=sorted(tips_seen), ts=ts, model=None, vacuity=True)
+    if ts.n >= 5 and sum(parents) % 7 == 0:
+        rep.sample(dict(kernel='a', parents=parents, leaves=ts.leaves, paths_tips=sorted(tips_seen)))
     rep.add_stats(st, 'a:main_chain_by_difficulty')
-    rep.cov['shapes'] += nshapes
-    return nshapes
+    rep.cov['shapes'] += 1
 
 
 # ------------------------------------------------------------------------------------------- kernel b
-def mk_state(it, prog, ts, net=2, thr=None):
-    """a State around the tree scenario; ledger parts are opaque (their use is recorded by stubs)"""
-    sh = it.fresh('stable_h', 'u32', 0, (1 << 31))
-    thr = thr if thr is not None else it.fresh('thr', 'u32', 1, None)
-    utxos = H.mk_struct(prog, 'UtxoSet', utxos=Opaque('utxos'), network=btc.network(prog, net), address_utxos=Opaque('au'),
-                        balances=Opaque('bal'), next_height=sh, should_time_slice=Opaque('sts'), ingesting_block=none())
-    ub = ts.build_unstable(it, prog, thr, net)
-    d = prog.src.find_adt(['GenericState'])
-    vals = dict(utxos=utxos, unstable_blocks=ub)
-    fields = [Cell(vals.get(f, Opaque(f))) for f in d.fields]
-    return Agg('GenericState', fields), sh
-
-
-def kernel_b(prog, rep, N, cands):
+def kernel_b_shape(prog, rep, cands, parents):
     st = Stats()
-    for n in range(1, N + 1):
-        for parents in H.all_shapes(n):
-            ts = btc.TreeScenario(parents)
-            if len(ts.leaves) < 2 and n > 3:
-                continue    # fork-free shapes are covered once per length below 4; forks are the subject here
+    ts = btc.TreeScenario(parents)
 
-            def scenario(it):
-                btc.install(it, STUBS_B)
-                ts.assume_ranges(it)
-                state, sh = mk_state(it, prog, ts)
-                sref = Ref(Cell(state))
-                applied = []
-                it.overrides['Address::from_str_checked'] = lambda it_, k, r, a: ok(Agg('Address', [Cell(Opaque('addr'))]))
-                it.overrides['AddressUtxoSet::apply_block'] = lambda it_, k, r, a: (applied.append(btc.bh_id(a[1])), UNIT)[1]
-                it.overrides['AddressUtxoSet::into_iter'] = lambda it_, k, r, a: ListIter([])
-                it.overrides['UtxoSet::utxos_len'] = lambda it_, k, r, a: it_.fresh('ulen', 'u64', 0, 1 << 40)
-                it.overrides['UtxoSet::get_balance'] = lambda it_, k, r, a: it_.fresh('sbal', 'u64', 0, 1 << 50)
-                added = []
-                it.overrides['GenericUnstableBlocks::get_added_outpoints'] = \
-                    lambda it_, k, r, a: (added.append(btc.bh_id(a[1])), btc_empty_slice())[1]
-                it.overrides['GenericUnstableBlocks::get_removed_outpoints'] = lambda it_, k, r, a: btc_empty_slice()
-                out = {}
-                # --- get_blockchain_info
-                info = it.call('state::blockchain_info', [sref])
-                d = prog.src.find_adt(['BlockchainInfo'])
-                g = lambda f: info.fields[d.fields.index(f)].v
-                out['info_height'] = g('height')
-                out['info_tip'] = g('block_hash').cells[0].v.t
-                out['info_ts'] = g('timestamp')
-                out['info_diff'] = g('difficulty')
-                # --- unfiltered get_utxos
-                chain = it.call('unstable_blocks::get_main_chain', [Ref(H.get_field(prog, state, 'GenericState', 'unstable_blocks'))])
-                r = it.call('get_utxos_from_chain', [sref, btc_str('addr'), SInt(0, 'u32'), chain, none(), SInt(1000, 'usize')])
-                if r.variant != 0:
-                    raise Unsupported('unfiltered get_utxos_from_chain returned Err')
-                resp = r.fields[0].v.fields[0].v
-                dr = prog.src.find_adt(['ic_btc_interface', 'GetUtxosResponse'])
-                out['utxos_tip'] = resp.fields[dr.fields.index('tip_block_hash')].v.cells[0].v.t
-                out['utxos_tip_height'] = resp.fields[dr.fields.index('tip_height')].v
-                out['utxos_applied'] = list(applied)
-                # --- unfiltered get_balance (closure body run on the same state)
-                it.globals['STATE'] = sref
-                req = H.mk_struct(prog, 'types::GetBalanceRequest', address=btc_string('addr'), min_confirmations=none())
-                it.overrides['with_state'] = lambda it_, k, r, a: it_.call_value(a[0], [sref])
-                it.overrides['with_state_mut'] = lambda it_, k, r, a: UNIT
-                rb = it.call('get_balance_private', [req])
-                if rb.variant != 0:
-                    raise Unsupported('unfiltered get_balance_private returned Err')
-                out['balance_blocks'] = list(added)
-                # --- headers of the unstable range
-                ub = Ref(H.get_field(prog, state, 'GenericState', 'unstable_blocks'))
-                rng_ = Agg('RangeInclusive', [Cell(sh), Cell(SInt(sh.t + (1 << 20), 'u32'))])   # end clipped below
-                out['hdr_len'] = it.call('unstable_blocks::get_main_chain_length', [ub])
-                return check_b(it, rep, ts, out, sh, cands, parents)
+    def scenario(it):
+        btc.install(it, STUBS_B)
+        ts.assume_ranges(it)
+        state, sh, thr = mk_state(it, prog, ts)
+        sref = Ref(Cell(state))
+        applied, added = [], []
+        it.overrides['Address::from_str_checked'] = lambda it_, k, r, a: ok(Agg('Address', [Cell(Opaque('addr'))]))
+        it.overrides['AddressUtxoSet::apply_block'] = lambda it_, k, r, a: (applied.append(btc.bh_id(a[1])), UNIT)[1]
+        it.overrides['AddressUtxoSet::into_iter'] = lambda it_, k, r, a: ListIter([])
+        it.overrides['UtxoSet::utxos_len'] = lambda it_, k, r, a: it_.fresh('ulen', 'u64', 0, 1 << 40)
+        it.overrides['UtxoSet::get_balance'] = lambda it_, k, r, a: it_.fresh('sbal', 'u64', 0, 1 << 50)
+        it.overrides['GenericUnstableBlocks::get_added_outpoints'] = \
+            lambda it_, k, r, a: (added.append(btc.bh_id(a[1])), empty_slice())[1]
+        it.overrides['GenericUnstableBlocks::get_removed_outpoints'] = lambda it_, k, r, a: empty_slice()
+        it.overrides['with_state'] = lambda it_, k, r, a: it_.call_value(a[0], [sref])
+        it.overrides['with_state_mut'] = lambda it_, k, r, a: UNIT
+        out = {}
+        # --- get_blockchain_info
+        info = it.call('state::blockchain_info', [sref])
+        d = prog.src.find_adt(['BlockchainInfo'])
+        g = lambda f: info.fields[d.fields.index(f)].v
+        out['info_height'] = g('height')
+        out['info_tip'] = g('block_hash').cells[0].v.t
+        out['info_ts'] = g('timestamp')
+        out['info_diff'] = g('difficulty')
+        # --- unfiltered get_utxos
+        ubref = Ref(sfield(prog, state, 'unstable_blocks'))
+        chain = it.call('unstable_blocks::get_main_chain', [ubref])
+        r = it.call('get_utxos_from_chain', [sref, StrV('addr'), SInt(0, 'u32'), chain, none(), SInt(1000, 'usize')])
+        if r.variant != 0:
+            raise Unsupported('unfiltered get_utxos_from_chain returned Err')
+        resp = r.fields[0].v.fields[0].v
+        dr = prog.src.find_adt(['ic_btc_interface', 'GetUtxosResponse'])
+        out['utxos_tip'] = resp.fields[dr.fields.index('tip_block_hash')].v.cells[0].v.t
+        out['utxos_tip_height'] = resp.fields[dr.fields.index('tip_height')].v
+        out['utxos_applied'] = list(applied)
+        # --- unfiltered get_balance
+        req = H.mk_struct(prog, 'types::GetBalanceRequest', address=StrV('addr'), min_confirmations=none())
+        rb = it.call('get_balance_private', [req])
+        if rb.variant != 0:
+            raise Unsupported('unfiltered get_balance_private returned Err')
+        out['balance_blocks'] = list(added)
+        out['hdr_len'] = it.call('unstable_blocks::get_main_chain_length', [ubref])
+        check_b(it, rep, ts, out, sh, cands)
 
-            explore(prog, scenario, stats=st, on_panic=lambda it, e: cands.append(
-                dict(kernel='b', role='trap', parents=parents, msg=str(e), ts=ts, model=it.model_ if it.feasible() else None)))
+    explore(prog, scenario, stats=st, on_panic=lambda it, e: cands.add(
+        kernel='b', role='trap', msg=str(e), ts=ts, model=it.model_ if it.feasible() else None))
     rep.add_stats(st, 'b:endpoints')
 
 
-def btc_empty_slice():
-    from mirsym.interp import SliceRef
-    return SliceRef(VecV(), 0, 0)
-
-
-def btc_str(s):
-    from mirsym.interp import StrV
-    return StrV(s)
-
-
-def btc_string(s):
-    from mirsym.interp import StrV
-    return StrV(s)
-
-
-def check_b(it, rep, ts, out, sh, cands, parents):
+def check_b(it, rep, ts, out, sh, cands):
     tip = out['info_tip']
     if not isinstance(tip, int):
         raise Unsupported('symbolic tip id')
-    path = ts.path(tip) if tip in ts.par or tip == 1 else None
-    best = ts.is_best(tip) if path else z3.BoolVal(False)
-    bad = []
-    # get_blockchain_info describes the best tip
-    conds = [('info-tip-not-best', z3.Not(best)),
+    mdl = lambda: it.model_ if it.feasible() else None
+    if tip not in ts.d:
+        cands.add(kernel='b', role='info-tip-unknown-block', model=mdl(), ts=ts, got=out_plain(out))
+        return
+    path = ts.path(tip)
+    conds = [('info-tip-not-best', z3.Not(ts.is_best(tip))),
              ('info-height', zterm(out['info_height']) != sh.t + len(path) - 1),
              ('info-timestamp', zterm(out['info_ts']) != ts.t[tip]),
              ('info-difficulty', zterm(out['info_diff']) != ts.d[tip])]
     for role, c in conds:
         m = check_unsat(it, rep, c)
         if m is not None:
-            cands.append(dict(kernel='b', role=role, parents=parents, model=m, ts=ts, got=out_plain(out)))
+            cands.add(kernel='b', role=role, model=m, ts=ts, got=out_plain(out))
             return
     # unfiltered get_utxos: same tip, height of that tip, applied exactly the best chain in order
     if out['utxos_tip'] != tip or out['utxos_applied'] != path:
-        cands.append(dict(kernel='b', role='get_utxos-unfiltered-not-at-best-tip', parents=parents,
-                          model=it.model_ if it.feasible() else None, ts=ts, got=out_plain(out)))
+        cands.add(kernel='b', role='get_utxos-unfiltered-not-at-best-tip', model=mdl(), ts=ts, got=out_plain(out))
         return
     m = check_unsat(it, rep, zterm(out['utxos_tip_height']) != sh.t + len(path) - 1)
     if m is not None:
-        cands.append(dict(kernel='b', role='get_utxos-tip-height', parents=parents, model=m, ts=ts, got=out_plain(out)))
+        cands.add(kernel='b', role='get_utxos-tip-height', model=m, ts=ts, got=out_plain(out))
         return
     if out['balance_blocks'] != path:
-        cands.append(dict(kernel='b', role='get_balance-unfiltered-not-best-chain', parents=parents,
-                          model=it.model_ if it.feasible() else None, ts=ts, got=out_plain(out)))
+        cands.add(kernel='b', role='get_balance-unfiltered-not-best-chain', model=mdl(), ts=ts, got=out_plain(out))
         return
     if out['hdr_len'].t != len(path):
-        cands.append(dict(kernel='b', role='main-chain-length', parents=parents,
-                          model=it.model_ if it.feasible() else None, ts=ts, got=out_plain(out)))
-
-
-def zterm(v):
-    t = v.t if isinstance(v, SInt) else v
-    return z3.IntVal(t) if isinstance(t, int) else t
+        cands.add(kernel='b', role='main-chain-length', model=mdl(), ts=ts, got=out_plain(out))
 
 
 def out_plain(out):
     return {k: (str(v.t) if isinstance(v, SInt) else v) for k, v in out.items()}
 
 
+def worker(job):
+    kind, parents = job
+    rep = H.Report(PROP, 'quick')
+    cands = Cands()
+    if kind == 'a':
+        kernel_a_shape(PROG, rep, cands, parents)
+    else:
+        kernel_b_shape(PROG, rep, cands, parents)
+    return (rep.cov, cands.items, rep.inconclusive)
+
+
 # ------------------------------------------------------------------------------------------- native side
-from checks.treelib import native_ops  # noqa: E402
-
-
-def model_diffs(ts, m):
-    return {i: (m.eval(ts.d[i], model_completion=True).as_long() if m is not None else 1) for i in ts.d}
-
-
-def oracle_concrete(ts, diffs):
-    """best leaf by the property text, on concrete numbers"""
-    best = None
-    for l in ts.leaves:
-        key = (sum(diffs[j] for j in ts.path(l)), len(ts.path(l)), -ts.pre[l])
-        if best is None or key > best[0]:
-            best = (key, l)
-    return best[1]
-
-
 def translator_validation(prog, rep, count):
     """the same concrete trees through (1) the MIR interpreter and (2) the native canister code"""
     r = C.rng()
     scen, expect = [], []
     for k in range(count):
-        n = r.randint(2, 8)
-        parents = [r.randint(1, i) for i in range(1, n)]
-        ts = btc.TreeScenario(parents)
-        style = r.randint(0, 3)
-        diffs = {i: (1 if style == 0 else r.randint(1, 3) if style == 1 else r.choice([1, 1, 2, 50]) if style == 2 else r.randint(1, 10 ** 6))
-                 for i in ts.d}
+        ts, diffs = random_tree(r, 2, 8)
+        concretize_ts(ts, diffs)
         it = Interp(prog)
-        for i in ts.d:
-            ts.d[i] = diffs[i]
-            ts.t[i] = 0
         root = ts.build_tree(it, prog)
         chain = it.call('BlockTree::<Block>::main_chain_by_difficulty', [Ref(Cell(root))])
         ids = btc.chain_ids(chain)
-        expect.append((ids, parents, diffs))
+        expect.append((ids, ts.parents, diffs))
         scen.append(dict(ops=native_ops(ts, diffs, extra=[dict(op='main_chain')])))
     res = C.run_native(scen, tag='c02tv')
-    bad = 0
     for (ids, parents, diffs), rr in zip(expect, res):
         nat = rr[-1].get('chain') if isinstance(rr[-1], dict) else None
         if nat != ids:
-            bad += 1
             rep.inconclusive = 'translator-mismatch main_chain parents=%s diffs=%s mir=%s native=%s' % (parents, diffs, ids, nat)
         else:
             rep.cov['traces_validated_against_impl'] += 1
-    return bad
 
 
-def confirm(rep, cand, known):
+def confirm(cand, known):
     """replay a candidate natively; returns 'violation' / 'known:<id>' / 'not-reproduced'"""
-    ts = cand['ts']
-    diffs = model_diffs(ts, cand.get('model'))
+    ts = btc.TreeScenario(list(cand['shape'][1]))
+    diffs = {int(k): v for k, v in cand['diffs'].items()}
     ops = native_ops(ts, diffs, extra=[dict(op='info'), dict(op='main_chain'), dict(op='utxos', addr=7),
-                                         dict(op='balance', addr=7), dict(op='headers', start=0)])
-    best = oracle_concrete(ts, diffs)
+                                       dict(op='balance', addr=7), dict(op='headers', start=0)])
+    best = oracle_best_leaf(ts, diffs)
     path = ts.path(best)
     res = C.run_native([dict(ops=ops)], tag='c02cx')[0]
     info, mc, ut, bal, hd = res[-5:]
     problems = []
     if info.get('tip') != best or info.get('height') != len(path) - 1:
-        problems.append('info')
-    if mc.get('chain') != path:
-        problems.append('main_chain')
+        problems.append('get_blockchain_info says tip %s height %s' % (info.get('tip'), info.get('height')))
+    if mc.get('chain') != path or mc.get('len') != len(path):
+        problems.append('main chain %s (length fn %s)' % (mc.get('chain'), mc.get('len')))
     if ut.get('tip') != best or ut.get('tip_height') != len(path) - 1:
-        problems.append('get_utxos')
+        problems.append('get_utxos tip %s height %s' % (ut.get('tip'), ut.get('tip_height')))
     exp_utxos = sorted(1000 + i for i in path)
     if sorted(u['value'] for u in ut.get('utxos', [])) != exp_utxos:
-        problems.append('get_utxos-set')
+        problems.append('get_utxos set')
     if bal.get('balance') != sum(exp_utxos):
-        problems.append('get_balance')
+        problems.append('get_balance %s' % bal)
     if hd.get('headers') != path:
-        problems.append('get_block_headers')
-    doc = dict(property=PROP, role=cand['role'], parents=ts.parents, difficulty=diffs, expected_best_chain=path,
+        problems.append('get_block_headers %s' % hd)
+    doc = dict(property=PROP, role=cand['role'], summary=dict(parents=ts.parents, difficulty=diffs), expected_best_chain=path,
                native=dict(info=info, main_chain=mc, utxos=ut, balance=bal, headers=hd), problems=problems,
                scenario=dict(ops=ops))
     if not problems:
         return 'not-reproduced', doc
-    # classification against known findings (by role predicate, not by literal values)
-    for k in known:
-        if k['id'] == 'C02-utxos-negative-stability-cut' and problems and set(problems) <= {'get_utxos', 'get_utxos-set'}:
-            # the listed defect: an unfiltered get_utxos stops at a best-chain block whose stability count is
-            # negative, i.e. a competing block at the same height has a deeper (longer) subtree
-            neg = any(ts.depth(b) < max([ts.depth(o) for o in ts.d if o != b and ts.height(o) == ts.height(b)], default=0)
-                      for b in path)
-            if neg:
-                return 'known:' + k['id'], doc
     return 'violation', doc
 
 
 def main():
+    global PROG
     tier = C.tier()
     rep = H.Report(PROP, tier)
-    N = 5 if tier == 'quick' else 7
-    NB = 5 if tier == 'quick' else 6
-    prog = H.load_program(['canister'])
+    N = 6 if tier == 'quick' else 7
+    NB = 6 if tier == 'quick' else 7
+    prog = PROG = H.load_program(['canister'])
     btc.load_dep_decls(prog)
-    rep.cov['bounds'] = dict(tree_blocks_kernel_a=N, tree_blocks_kernel_b=NB, difficulty='symbolic in [1, 2^100)',
+    rep.cov['bounds'] = dict(tree_blocks_kernel_a=N, tree_blocks_kernel_b='%d (fork-free shapes only up to 4)' % NB, difficulty='symbolic in [1, 2^100)',
                              stable_height='symbolic u32 < 2^31', timestamps='symbolic u32',
-                             outside='trees larger than the bound; u128 overflow of accumulated difficulty')
+                             outside='trees larger than the bound; u128 overflow of accumulated difficulty; the fee-percentile block selection (C15)')
     rep.cov['mir'] = prog.info
     rep.cov['functions_encoded'] = ['BlockTree::main_chain_by_difficulty(+_inner)', 'BlockTree::main_chain_length_by_difficulty(+_inner)',
                                     'BlockChain::{new_with_successors,tip,into_chain,len,first}', 'DifficultyBasedDepth::{new,add}',
@@ -336,40 +239,14 @@ def main():
     rep.assumptions = ['tie-break "received first" read as: the child that arrived first where the branches diverge (the reading the code documents)',
                        'std Vec/slice/iterator/Option models (mirsym/models_std.py) are faithful',
                        'MIR is of the host-target dev build of the canister crate; overflow checks on (dev semantics)']
-    cands = []
-    t0 = time.time()
-    kernel_a(prog, rep, N, cands)
-    kernel_b(prog, rep, NB, cands)
-    bad = translator_validation(prog, rep, 60 if tier == 'quick' else 300)
-    known = H.load_known(PROP)
-    # replay: one representative per (role, shape family) is enough to decide; cap the native runs
-    seen_roles = {}
-    for c in cands:
-        if c.get('vacuity'):
-            rep.inconclusive = 'vacuity: %s %s' % (c['role'], c['parents'])
-            continue
-        key = (c['kernel'], c['role'])
-        seen_roles.setdefault(key, []).append(c)
-    for key, cs in seen_roles.items():
-        verdicts = {}
-        for c in cs[:12]:
-            v, doc = confirm(rep, c, known)
-            rep.cov['traces_validated_against_impl'] += 1
-            verdicts.setdefault(v, []).append(doc)
-        if 'violation' in verdicts:
-            p = C.save_replay(PROP, key[1], verdicts['violation'][0])
-            rep.violations.append(p)
-        elif any(v.startswith('known:') for v in verdicts):
-            for v in verdicts:
-                if v.startswith('known:'):
-                    d = verdicts[v][0]
-                    rep.known_hit.append('%s unfiltered get_utxos answers tip %s (height %s) while the best chain is %s; %d counterexamples of this role' % (
-                        v[6:], d['native']['utxos'].get('tip'), d['native']['utxos'].get('tip_height'), d['expected_best_chain'], len(cs)))
-                    rep.sample(dict(known_finding=v[6:], parents=d['parents'], difficulty=d['difficulty']))
-        else:
-            rep.inconclusive = 'counterexample for role %s did not reproduce natively (model or stub wrong)' % (key,)
-            C.save_replay(PROP, 'unreproduced_' + key[1], verdicts['not-reproduced'][0])
-    rep.cov['candidates'] = len(cands)
+    cands = Cands()
+    jobs = [('a', p) for p in shapes_upto(N)] + [('b', p) for p in shapes_upto(NB, forks_only_above=4)]
+    jobs.sort(key=lambda j: -len(j[1]))
+    for part in parallel(jobs, worker):
+        merge_partial(rep, cands, part)
+    rep.cov['jobs'] = len(jobs)
+    translator_validation(prog, rep, 60 if tier == 'quick' else 300)
+    settle(rep, PROP, cands, confirm, H.load_known(PROP), describe=lambda d: '%s %s' % (d.get('problems'), d.get('summary')))
     return rep.finish()
 
 
